@@ -10,7 +10,14 @@ LIST_RE = re.compile(r'^( => |    )(\w+) \((client|server|unknown type)(?: to)?(
 
 
 def case_of(st):
-    return {'lines': [e['line'] for e in st['entries']], 'k': st['k'], 'strategy': st['strategy'], 'dialect': st['dialect']}
+    """replayable: the input lines plus, per line, the text the ground truth expects (so that --replay decides again)"""
+    exp = []
+    for e in st['entries']:
+        if e.get('rec') is None:
+            exp.append(None)
+        else:
+            exp.append([history.expected_text(e['rec'], e['side'], st['names'][e['ci']]), streams.exp_floats(e['rec'], st['dialect'])])
+    return {'lines': [e['line'] for e in st['entries']], 'k': st['k'], 'strategy': st['strategy'], 'dialect': st['dialect'], 'expected': exp}
 
 
 def run_stream(ctx, st, want=('C02', 'C03', 'C04'), extra_case=None, session_kwargs=None, hooks=None):
@@ -166,13 +173,29 @@ def report(ctx, st, probs, extra=None):
 
 
 def replay_lines(ctx, case, want):
-    """re-run stored lines (no ground truth available: run the comparison against a re-derived model is not possible,
-    so a replay re-feeds the lines and prints what the tool shows around the first bad line)"""
+    """re-feed the stored lines and compare every shown line with the stored ground-truth text again"""
+    contracts.install()
     s = Session()
     s.feed([l + '\n' for l in case['lines']])
-    idx = case.get('first_bad_line') or 0
     per = s.per_read()
+    exp = case.get('expected') or []
+    bad = None
+    for i, l in enumerate(case['lines']):
+        if i >= len(exp) or exp[i] is None:
+            continue
+        msgs = [outline.strip_sgr(p) for k, p in per.get(i, []) if k == 'out' and outline.parse_line(outline.strip_sgr(p))['kind'] == 'msg']
+        prob = 'no message line' if len(msgs) != 1 else streams.compare_line(msgs[0], exp[i][0], exp[i][1])[0]
+        ctx.ev()
+        if prob:
+            bad = i
+            ctx.violation('replay-line', 'line %d %r: %s; expected %r, shown %r' % (i, l[:160], prob, exp[i][0], msgs[:1]), {'lines': case['lines'], 'expected': exp, 'first_bad_line': i})
+            break
+    for kind, msg in contracts.drain():
+        ctx.violation(kind, msg, {'lines': case['lines']})
+    idx = bad if bad is not None else (case.get('first_bad_line') or 0)
     for i in range(max(0, idx - 3), min(len(case['lines']), idx + 2)):
         print('IN ', case['lines'][i])
         for k, p in per.get(i, []):
             print('   ', k, outline.strip_sgr(p))
+    if bad is None and not ctx.violations:
+        print('replay: every line is shown as the stored ground truth expects (the original report may have been about recorded state: %r)' % (case.get('first_bad_line'),))
